@@ -925,7 +925,12 @@ func (f *FuncCtx) loopCommon(label string, env *Env, fl *flow, nodes []ast.Node,
 	for o := range ms.objs {
 		objs = append(objs, o)
 	}
-	sort.Slice(objs, func(i, j int) bool { return objs[i].Pos() < objs[j].Pos() })
+	sort.Slice(objs, func(i, j int) bool {
+		if a, b := f.posKey(objs[i]), f.posKey(objs[j]); a != b {
+			return a < b
+		}
+		return objs[i].Name() < objs[j].Name()
+	})
 	for _, o := range objs {
 		if v, ok := head.vars[o]; ok && v.Clo == nil {
 			head.vars[o] = f.freshVal(o.Type(), o.Name())
@@ -963,12 +968,15 @@ func (f *FuncCtx) loopCommon(label string, env *Env, fl *flow, nodes []ast.Node,
 		}
 		head.heap[h] = f.define("Hl_"+strings.TrimPrefix(h, "H."), hsort, cur)
 	}
-	for k, v := range ghost {
+	gks := sortedKeys(ghost)
+	sort.Sort(sort.Reverse(sort.StringSlice(gks))) // fixed order; the loop's own index ($i<n>) before the innermost alias ($i)
+	for _, k := range gks {
+		v := ghost[k]
 		if strings.HasPrefix(k, "$i") || strings.HasPrefix(k, "$n") {
 			head.names[k] = Val{T: f.fresh(strings.TrimPrefix(k, "$"), "Int"), Typ: v.Typ}
 		}
 	}
-	for k := range head.names {
+	for _, k := range sortedKeys(head.names) {
 		if strings.HasPrefix(k, "calls:") || strings.HasPrefix(k, "lastarg:") {
 			name := strings.TrimPrefix(k, "calls:")
 			if strings.HasPrefix(k, "lastarg:") {
@@ -983,13 +991,14 @@ func (f *FuncCtx) loopCommon(label string, env *Env, fl *flow, nodes []ast.Node,
 			}
 		}
 	}
-	for k, v := range head.names {
+	for _, k := range sortedKeys(head.names) {
+		v := head.names[k]
 		if strings.HasPrefix(k, "$g:") && f.loopAssignsGhost(nodes, strings.TrimPrefix(k, "$g:"), env) {
 			head.names[k] = f.freshVal(v.Typ, strings.TrimPrefix(k, "$g:"))
 		}
 	}
 	// counters for tracked calls made in the loop but not yet present
-	for name := range f.trackCall {
+	for _, name := range sortedKeys(f.trackCall) {
 		if _, ok := head.names["calls:"+name]; !ok && f.loopCalls(nodes, name, env) {
 			env.names["calls:"+name] = Val{T: "0", Typ: types.Typ[types.Int]}
 			head.names["calls:"+name] = Val{T: f.fresh("ncalls", "Int"), Typ: types.Typ[types.Int]}
